@@ -141,7 +141,12 @@ def _prune_old_facts(keep=6):
         ds = [os.path.join(root, d) for d in os.listdir(root)]
     except OSError:
         return
-    ds.sort(key=lambda d: os.path.getmtime(d))
+    def _mt(d):
+        try:
+            return os.path.getmtime(d)
+        except OSError:
+            return 0.0      # removed by a concurrent check process between the listing and now
+    ds.sort(key=_mt)
     now = time.time()
     for d in ds[:-keep]:
         # never touch a fact set that another check process (analysing another tree) may be writing or reading right now
